@@ -6,7 +6,19 @@ HOOK_COMMITS = ["d85c6ee", "170bde9", "43ffa35", "8043914", "4c6f2d6"]
 
 # id -> (engine, category, technique, level text, level note, design ref)
 CHECKS = {
- "C10": ("E3-enumeration", "exploration",
+ "C03": ("E2-explicit-state", "model_checking",
+   "explicit-state BFS over request histories on clones of the real Server, reference model in lock-step",
+   "All request histories up to depth 6 (quick) / 8 (thorough) over five sub-alphabets (valid and invalid writes of every kind, token provenance classes, boundary sizes, timestamps around +-45 s, clock steps around the rotation period, request filter) are executed against the real Server through the real codec; every reply and the stored state are compared with a reference model after every transition.",
+   "States hold real Server clones; capacities 8/4/4 instead of defaults; the layers above Server::handle_request are covered by the E1 checks.", "DESIGN.md section 6, C03"),
+ "C04": ("E2-explicit-state", "model_checking",
+   "explicit-state BFS to a fixpoint over put/get histories on clones of the real Server, BEP44 reference state machine in lock-step",
+   "The reachable state space of a Server under the put/get alphabet (seq 1..4, cas variants, two writers, keys, salted slot, capacities 1/2/8) is explored until no new state appears; every reply is compared with the BEP44 reference and the stored seq is checked for monotonicity on every transition.",
+   "Equal-seq-different-value is treated as unspecified; tokens are always fresh here.", "DESIGN.md section 6, C04"),
+ "C15": ("E2-explicit-state", "model_checking",
+   "explicit-state BFS over request/clock timelines on clones of the real Server, token-epoch reference in lock-step",
+   "All timelines up to depth 6 (quick) / 8 (thorough) of token-yielding reads, writes presenting tokens of every provenance (own latest/oldest, adversarially close IP, other IP, other server, mutated, resized, empty) and clock steps around the 5-minute rotation are executed against the real Server; must-accept / must-reject / either verdicts follow the statement.",
+   "The 2^32 token values are not enumerated.", "DESIGN.md section 6, C15"),
+  "C10": ("E3-enumeration", "exploration",
    "bounded-exhaustive enumeration of message values through the real codec, against an independent strict bencode reader and an independently built wire tree",
    "Every message kind with every optional-field combination over boundary menus is encoded, independently re-parsed (canonical form, BEP key names, compact formats) and decoded back; the BEP5 example messages are decoded and re-encoded; exhaustive over the stated menus.",
    "Trusts the harness' own bencode reader and tree builder (written from the BEPs, sharing no code with the crate).", "DESIGN.md section 6, C10"),
